@@ -675,6 +675,14 @@ func (r *batchRun) mapBatch(hr *Rng, maxEntries int) {
 	if collide {
 		n = min(n, 400)
 	}
+	// tail shapes: a few elements near the inline limit and one tiny one; when the tiny one comes last in
+	// digest order the last data slab underflows and its left neighbour cannot lend (merge branch)
+	tailShape := !collide && hr.Chance(30)
+	tinyIdx := -1
+	if tailShape {
+		n = 3 + hr.Intn(6)
+		tinyIdx = hr.Intn(n)
+	}
 	table := map[uint64][mpeLevels]uint64{}
 	mkBuilder := func() atree.DigesterBuilder {
 		if collide {
@@ -717,6 +725,26 @@ func (r *batchRun) mapBatch(hr *Rng, maxEntries int) {
 			}
 		}
 		var v atree.Value
+		if tailShape {
+			if i == tinyIdx {
+				k = testutils.Uint64Value(kid)
+				v = testutils.Uint64Value(uint64(hr.Intn(20)))
+			} else {
+				kl := max(1, keyLim-12+hr.Intn(10))
+				k = testutils.NewStringValue(fmt.Sprintf("%d|%s", kid, strings.Repeat("k", kl)))
+				room := int(atree.MaxInlineMapElementSize()) - int(k.(testutils.StringValue).ByteSize()) - 1
+				v = testutils.NewStringValue(randStr(hr, max(1, room-6+hr.Intn(5))))
+			}
+			old, err := src.Set(testutils.CompareValue, testutils.GetHashInput, k, v)
+			if err != nil {
+				r.viol("C17: building the source map failed", err.Error())
+				return
+			}
+			if sid, ok := old.(atree.SlabIDStorable); ok {
+				must(srcSt.Remove(atree.SlabID(sid)))
+			}
+			continue
+		}
 		switch hr.Pick(40, 30, 15, 10, 5) {
 		case 0:
 			v = testutils.Uint64Value(uint64(hr.Intn(1 << 20)))
@@ -740,6 +768,68 @@ func (r *batchRun) mapBatch(hr *Rng, maxEntries int) {
 		}
 		if sid, ok := old.(atree.SlabIDStorable); ok {
 			must(srcSt.Remove(atree.SlabID(sid)))
+		}
+	}
+	if tailShape && hr.Chance(50) {
+		// directed tail: learn the digest order of the keys, then size the values by rank so that the first
+		// data slab reaches the slab size exactly with its last (tiny) element and one small element remains:
+		// the last slab underflows and its left neighbour cannot lend, so the two are merged into ONE slab
+		var order []atree.Value
+		must(src.IterateReadOnly(func(k, v atree.Value) (bool, error) {
+			order = append(order, k)
+			return true, nil
+		}))
+		if len(order) >= 4 {
+			T := atree.VerifSettings()[0]
+			prefix := uint32(18 + 8)
+			maxElem := atree.MaxInlineMapElementSize() + 8
+			strOf := func(total uint32) atree.Value { // string value whose storable has (about) that size
+				l := int(total) - 3
+				if total <= 24 {
+					l = int(total) - 1
+				} else if total <= 257 {
+					l = int(total) - 2
+				}
+				return testutils.NewStringValue(strings.Repeat("s", max(0, l)))
+			}
+			set := func(k atree.Value, contribution uint32) {
+				ks := k.(interface{ ByteSize() uint32 }).ByteSize()
+				vs := int(contribution) - 8 - 1 - int(ks)
+				if vs < 1 {
+					vs = 1
+				}
+				old, err := src.Set(testutils.CompareValue, testutils.GetHashInput, k, strOf(uint32(vs)))
+				must(err)
+				if sid, ok := old.(atree.SlabIDStorable); ok {
+					must(srcSt.Remove(atree.SlabID(sid)))
+				}
+			}
+			// all but the last four stay as they are only if small; simplest: keep exactly four entries
+			for _, k := range order[4:] {
+				ks, vs, err := src.Remove(testutils.CompareValue, testutils.GetHashInput, k)
+				must(err)
+				for _, st := range []atree.Storable{ks, vs} {
+					if sid, ok := st.(atree.SlabIDStorable); ok {
+						must(srcSt.Remove(atree.SlabID(sid)))
+					}
+				}
+			}
+			order = order[:4]
+			// keys are of mixed sizes: replace them by their rank-preserving contributions only through values
+			a := T/2 - prefix - 2 - uint32(hr.Intn(3))
+			b := maxElem - 1 - uint32(hr.Intn(3))
+			tiny := uint32(14)
+			if prefix+a+b < T {
+				tiny = T - prefix - a - b
+				if tiny < 14 {
+					tiny = 14
+				}
+			}
+			set(order[0], a)
+			set(order[1], b)
+			set(order[2], tiny)
+			set(order[3], 14+uint32(hr.Intn(4)))
+			r.rep.Event("map_batch_directed_tail")
 		}
 	}
 	var entries []mapEntry
